@@ -4,6 +4,7 @@ package rules
 // the defect, reports it on the tree before the repair and holds after it.
 
 import (
+	"sort"
 	"strings"
 
 	"cvcheck/internal/core"
@@ -213,7 +214,7 @@ func (c *Ctx) callableGetterRule(rule string) {
 		r.Check(rule, sprintf("%s:lookup%d:addressable-argument", FnKey(s.Fn), n), c.Pos(s.Pos()), isAddrCall(a),
 			"the resolver looks methods up as if every receiver were addressable (got "+a.String()+"): a pointer receiver getter is then chosen for a getter result, `src.Inner().Name()` with `func (*Inner) Name()` does not compile")
 	}
-	r.Floor(rule, "LookupFieldOrMethod calls in the builder", n, 2)
+	r.Floor(rule, "LookupFieldOrMethod calls in the builder", n, 1) // the two resolvers may share one path walker
 	if pr := c.MustMethod(rule, "/pkg/builder/model", "StructMethodNode", "PtrRecv"); pr != nil {
 		tr := c.Reach(pr).RetCond(0, true)
 		recvPtr := c.M(true, func(t *core.Term) bool {
@@ -424,6 +425,32 @@ func (c *Ctx) stringerLookupRule(rule string) {
 	r.Floor(rule, "LookupFieldOrMethod calls in CompliesStringer", n, 1)
 }
 
+// reachUp is the reaching condition of an instruction conjoined with the reaching conditions of the call sites through
+// which its function is reached from stop, as long as each function on the way has a single caller (a split-off helper).
+func (c *Ctx) reachUp(in ssa.Instruction, stop *ssa.Function) core.DNF {
+	d := c.ReachOf(in)
+	fn := in.Parent()
+	for lvl := 0; lvl < 3 && fn != nil && fn != stop; lvl++ {
+		site, ok := c.UniqueCaller(fn)
+		if !ok {
+			break
+		}
+		d = core.And(d, c.ReachOf(site.Instr))
+		fn = site.Fn
+	}
+	return d
+}
+
+// isObjNameOfNamed: the call is X.Name() where X, read through the unique caller of a helper, is Named.Obj().
+func (c *Ctx) isObjNameOfNamed(call *ssa.Call, stop *ssa.Function) bool {
+	t := c.O.Of(call)
+	if t.Kind != "call" || !strings.HasSuffix(t.Name, ").Name") || !strings.Contains(t.Name, "go/types") {
+		return false
+	}
+	up := c.UpTo(call.Parent(), t, stop)
+	return up.Contains(func(s *core.Term) bool { return s.IsCallTo("(*go/types.Named).Obj") })
+}
+
 // typecastNameRule: NewTypecast renders what it cannot name itself through the import table, or declines.
 func (c *Ctx) typecastNameRule(rule string) {
 	r := c.R
@@ -433,36 +460,179 @@ func (c *Ctx) typecastNameRule(rule string) {
 	if fn == nil || te == nil {
 		return
 	}
-	rc := c.Reach(fn)
+	_ = te
+	// NewTypecast and the helpers of its package it calls (the rendering may be split off)
+	fns := c.samePkgCallees(fn, 2)
+	var order []*ssa.Function
+	for f := range fns {
+		order = append(order, f)
+	}
+	sort.Slice(order, func(i, j int) bool { return order[i].String() < order[j].String() })
+	noArgs := c.atMost(func(x *core.Term) bool {
+		return x.Kind == "call" && strings.HasSuffix(x.Name, "TypeList).Len") && x.Contains(func(s *core.Term) bool { return s.IsCallTo("(*go/types.Named).TypeArgs") })
+	}, 0)
 	n := 0
-	for _, a := range c.Lits(te) {
-		if a.Parent() != fn {
-			continue
-		}
-		ev := LitFields(a)["expr"]
-		if ev == nil {
-			continue
-		}
-		for _, cs := range rc.Cases(ev) {
-			cond := cs.Cond
-			if cond == nil {
-				cond = c.ReachOf(a)
-			}
-			t := c.O.Of(cs.V)
-			switch {
-			case cond.Implies(c.M(true, assertOK("*types.Basic"))):
-				n++
-				ok := t.Contains(func(s *core.Term) bool { return s.IsCallTo("(" + pUtil + "ImportNames).TypeName") }) && !t.Contains(func(s *core.Term) bool { return s.IsCallTo("(*go/types.Basic).Name") })
-				r.Check(rule, FnKey(fn)+":basic-through-TypeName", c.InstrPos(a), ok, "a basic target type is rendered as its bare name ("+t.String()+"): unsafe.Pointer becomes `Pointer`")
-			case cond.Implies(c.M(true, assertOK("*types.Named"))):
-				n++
-				noArgs := c.atMost(func(x *core.Term) bool {
-					return x.Kind == "call" && strings.HasSuffix(x.Name, "TypeList).Len") && x.Contains(func(s *core.Term) bool { return s.IsCallTo("(*go/types.Named).TypeArgs") })
-				}, 0)
-				throughTN := t.Contains(func(s *core.Term) bool { return s.IsCallTo("(" + pUtil + "ImportNames).TypeName") })
-				r.Check(rule, FnKey(fn)+":named:"+sprintf("%d", n)+":no-type-arguments", c.InstrPos(a), throughTN || cond.Implies(noArgs), "a named target type is rendered by its name alone although it may carry type arguments (`Box(x)` for Box[int]); condition: "+cond.Describe(c.O))
+	for _, f := range order {
+		for _, b := range f.Blocks {
+			for _, in := range b.Instrs {
+				call, ok := in.(*ssa.Call)
+				if !ok {
+					continue
+				}
+				t := c.O.Of(call)
+				switch {
+				case t.IsCallTo("(*go/types.Basic).Name"):
+					n++
+					r.Check(rule, FnKey(f)+":basic-through-TypeName", c.InstrPos(call), false, "a basic target type is rendered as its bare name ("+t.String()+"): unsafe.Pointer becomes `Pointer`")
+				case t.IsCallTo("("+pUtil+"ImportNames).TypeName") && c.reachUp(call, fn).Implies(c.M(true, assertOK("*types.Basic"))):
+					n++
+					r.Check(rule, FnKey(f)+":basic-through-TypeName", c.InstrPos(call), true, "")
+				case t.Kind == "call" && strings.HasSuffix(t.Name, ").Name") && t.Contains(func(s *core.Term) bool { return s.IsCallTo("(*go/types.Named).Obj") }) || c.isObjNameOfNamed(call, fn):
+					n++
+					d := c.reachUp(call, fn)
+					r.Check(rule, sprintf("%s:named:%d:no-type-arguments", FnKey(f), n), c.InstrPos(call), d.Implies(noArgs), "a named target type is rendered by its name alone although it may carry type arguments (`Box(x)` for Box[int]); path: "+c.failing(d, noArgs))
+				}
 			}
 		}
 	}
 	r.Floor(rule, "rendered conversion targets in NewTypecast", n, 2)
+}
+
+// typeErrorMatchers: literals that tie a types.Error to the inside of a type declaration named at an object's position.
+func (c *Ctx) typeErrorMatchers() (isPos func(*core.Term) bool, lower, upper, sameSpec core.LitMatcher) {
+	isPos = func(t *core.Term) bool { return t.IsField("types.Error.Pos") }
+	specPos := func(t *core.Term) bool { return t.IsCallTo("(*go/ast.TypeSpec).Pos") }
+	specEnd := func(t *core.Term) bool { return t.IsCallTo("(*go/ast.TypeSpec).End") }
+	cmp := func(op string, l, rr func(*core.Term) bool) func(*core.Term) bool {
+		return func(t *core.Term) bool { return t.Kind == "binop" && t.Name == op && l(t.Args[0]) && rr(t.Args[1]) }
+	}
+	either := func(ps ...func(*core.Term) bool) func(*core.Term) bool {
+		return func(t *core.Term) bool {
+			for _, p := range ps {
+				if p(t) {
+					return true
+				}
+			}
+			return false
+		}
+	}
+	lower = c.M(true, either(cmp("<=", specPos, isPos), cmp(">=", isPos, specPos)))
+	upper = c.M(true, either(cmp("<", isPos, specEnd), cmp(">", specEnd, isPos)))
+	sameSpec = c.M(true, func(t *core.Term) bool {
+		return t.Kind == "binop" && t.Name == "==" && t.Contains(func(s *core.Term) bool { return s.IsField("ast.TypeSpec.Name") }) && t.Contains(func(s *core.Term) bool { return s.Kind == "invoke" && strings.HasSuffix(s.Name, ".Pos") && s.Args[0].Kind == "param" })
+	})
+	return
+}
+
+// typeErrorsConfined: fn reads packages.Package.TypeErrors, and every answer of fn other than nil is given only for an error
+// positioned inside a type declaration found in the setup file's own syntax tree (parser.Parser.file).
+func (c *Ctx) typeErrorsConfined(fn *ssa.Function) bool {
+	_, lower, upper, sameSpec := c.typeErrorMatchers()
+	fromSetupFile := false
+	for _, b := range fn.Blocks {
+		for _, in := range b.Instrs {
+			if v, ok := in.(ssa.Value); ok {
+				if t := c.O.Of(v); t.IsField("ast.File.Decls") && t.Contains(func(s *core.Term) bool { return s.IsField("parser.Parser.file") }) {
+					fromSetupFile = true
+				}
+			}
+		}
+	}
+	if !fromSetupFile {
+		return false
+	}
+	n := 0
+	for _, ret := range core.Returns(fn) {
+		for _, res := range ret.Results {
+			if c.O.Of(res).Is("const", "nil") {
+				continue
+			}
+			n++
+			d := c.ReachOf(ret)
+			if !(d.Implies(lower) && d.Implies(upper) && d.Implies(sameSpec)) {
+				return false
+			}
+		}
+	}
+	return n > 0
+}
+
+// interfaceTypeErrorRule (C14): an ill-typed converter interface fails the run.
+func (c *Ctx) interfaceTypeErrorRule(rule string) {
+	r := c.R
+	r.Rule(rule, "parseMethods reads the methods from the type-checked interface, and go/types keeps only the first of two methods of one name and nothing of an unresolved embedded interface: it succeeds only if a helper that walks packages.Package.TypeErrors found no error positioned inside the interface's own type declaration (TypeSpec.Pos() ≤ e.Pos < TypeSpec.End() of the spec whose name sits at the object's position); that helper answers such an error through logger.Errorf with the error's position")
+	pm := c.MustMethod(rule, "/pkg/parser", "Parser", "parseMethods")
+	if pm == nil {
+		return
+	}
+	// the helper: a function of pkg/parser that returns an error built under an interval test on types.Error.Pos
+	var helper *ssa.Function
+	for _, fn := range c.P.Funcs() {
+		if p := pkgOf(fn); p == nil || p.Path() != mod+"/pkg/parser" {
+			continue
+		}
+		readsErrors := false
+		for _, b := range fn.Blocks {
+			for _, in := range b.Instrs {
+				if fa, ok := in.(*ssa.FieldAddr); ok && core.FieldName(fa.X.Type(), fa.Field) == "packages.Package.TypeErrors" {
+					readsErrors = true
+				}
+				if f, ok := in.(*ssa.Field); ok && strings.HasSuffix(core.FieldName(f.X.Type(), f.Field), "Package.TypeErrors") {
+					readsErrors = true
+				}
+			}
+		}
+		if readsErrors {
+			helper = fn
+		}
+	}
+	r.Check(rule, FnKey(pm)+":type-error-helper", c.Pos(pm.Pos()), helper != nil, "no function of pkg/parser looks at packages.Package.TypeErrors: type errors inside a converter interface (duplicate method names, an unresolved embedded interface) go unnoticed and the methods they hide are dropped with exit 0")
+	if helper == nil {
+		return
+	}
+	isPos, lower, upper, sameSpec := c.typeErrorMatchers()
+	n := 0
+	okRet := false
+	for _, ret := range core.Returns(helper) {
+		t := c.O.Of(ret.Results[len(ret.Results)-1])
+		if !t.IsCallTo(fnErrorf) {
+			continue
+		}
+		n++
+		d := c.ReachOf(ret)
+		okRet = d.Implies(lower) && d.Implies(upper) && d.Implies(sameSpec)
+		pos := c.varargAt(ret.Results[len(ret.Results)-1].(*ssa.Call).Call.Args[1], 0)
+		okPos := pos != nil && pos.IsCallTo("(*go/token.FileSet).Position") && pos.Contains(isPos)
+		r.Check(rule, FnKey(helper)+":error-inside-the-declaration", c.InstrPos(ret), okRet, "the helper's error is not tied to TypeSpec.Pos() ≤ e.Pos < TypeSpec.End() of the declaration whose name sits at the object's position; reach: "+d.Describe(c.O))
+		r.Check(rule, FnKey(helper)+":error-position", c.InstrPos(ret), okPos, "the diagnostic does not start with the position of the type error")
+	}
+	r.Floor(rule, "error returns of the type-error helper", n, 1)
+	// the scan is over all type errors and all declarations: no early success
+	isHelperNil := c.M(true, isNilCmp(func(t *core.Term) bool {
+		return t.Kind == "call" && (t.Name == helper.String() || t.Name == core.FuncName(helper)) && len(t.Args) >= 2 && t.Args[1].IsField("parser.intfEntry.intf")
+	}))
+	for i, ret := range core.Returns(pm) {
+		if len(ret.Results) != 2 || !c.O.Of(ret.Results[1]).Is("const", "nil") {
+			continue
+		}
+		if helper == pm {
+			// the scan is written out in parseMethods itself: it must come before the success return
+			okDom := false
+			for _, hr := range core.Returns(pm) {
+				if c.O.Of(hr.Results[len(hr.Results)-1]).IsCallTo(fnErrorf) && c.O.Of(hr.Results[len(hr.Results)-1]).Contains(isPos) {
+					if lp := loopOf(hr.Block()); lp != nil {
+						for h := range lp {
+							if h.Dominates(ret.Block()) && !lp[ret.Block()] {
+								okDom = true
+							}
+						}
+					}
+				}
+			}
+			r.Check(rule, sprintf("%s:return%d:well-typed-interface", FnKey(pm), i+1), c.InstrPos(ret), okDom, "parseMethods can succeed without having scanned the type errors of the interface's declaration")
+			continue
+		}
+		d := c.ReachOf(ret)
+		r.Check(rule, sprintf("%s:return%d:well-typed-interface", FnKey(pm), i+1), c.InstrPos(ret), d.Implies(isHelperNil), "parseMethods can succeed without having asked whether the interface's declaration carries a type error; reach: "+d.Describe(c.O))
+	}
 }
